@@ -1,7 +1,7 @@
 (* C07 property theorems. Statements only; proofs are `exact lemma`. Third-party compressors appear as universally
    quantified functions with their round-trip behaviour as premises. All theorems are for every input (no bound). *)
 From Coq Require Import ZArith List Bool Lia.
-From OG Require Import C07.Model C07.ModelRows C07.ModelFile C07.ModelPreAgg C07.ProofsPreAgg C07.ProofsFile C07.ProofsRows C07.ProofsBase C07.ProofsS8 C07.ProofsInt C07.ProofsBool C07.ProofsFloat C07.ProofsString C07.ProofsSeg.
+From OG Require Import C07.Model C07.ModelRows C07.ModelFile C07.ModelPreAgg C07.ModelCMSelf C07.ProofsPreAgg C07.ProofsCMSelf C07.ProofsFile C07.ProofsRows C07.ProofsBase C07.ProofsS8 C07.ProofsInt C07.ProofsBool C07.ProofsFloat C07.ProofsString C07.ProofsSeg.
 Import ListNotations.
 Open Scope Z_scope.
 
@@ -377,3 +377,22 @@ Proof.
   cbv zeta. split; [|split; reflexivity].
   repeat constructor; try discriminate; cbn; lia.
 Qed.
+
+(* ---- the chunk meta as written under chunk-meta-compress-mode = self (MarshalChunkMeta / UnmarshalChunkMeta) ----
+   whatever scale index the writer uses for the segment time ranges (it must divide every wrapped delta) and whatever
+   dictionary index names each column, the reader - given the file's dictionary - returns exactly the chunk meta:
+   ids, offsets, sizes, every segment range, and per column name, type, statistics block and every segment's offset and
+   size (offsets are rebuilt by summing sizes: exact because the segments of a column are contiguous) *)
+Theorem C07_chunk_meta_self_roundtrip : forall dict k idxs m rest, cm_self_ok dict k idxs m = true ->
+  (0 <=? k) && (k <? n_scales) = true ->
+  d_cm_self dict (e_cm_self k idxs m ++ rest) = Some (m, rest).
+Proof. exact cm_self_roundtrip. Qed.
+Print Assumptions C07_chunk_meta_self_roundtrip.
+
+Example C07_ex_chunk_meta_self :
+  let dict := [[102]; [116; 105; 109; 101]] in
+  let m := (7, (16, (60, ([(1000, 5000); (6000, 9000)],
+            [([102], (1, ([1; 2; 3], [(20, 10); (30, 12)]))); ([116; 105; 109; 101], (1, ([0; 0; 0; 2], [(46, 14); (60, 16)])))])))) in
+  cm_self_ok dict 1 [0; 1] m = true /\ d_cm_self dict (e_cm_self 1 [0; 1] m) = Some (m, []) /\
+  cm_self_ok dict 2 [0; 1] m = false.      (* 1e6 does not divide the times *)
+Proof. vm_compute. repeat split. Qed.
